@@ -682,6 +682,7 @@ var AllSessionKeys = []string{
 	authboss.FlashSuccessKey, authboss.FlashErrorKey,
 	totp2fa.SessionTOTPSecret, totp2fa.SessionTOTPPendingPID,
 	sms2fa.SessionSMSNumber, sms2fa.SessionSMSSecret, "sms_secret_number", sms2fa.SessionSMSLast, sms2fa.SessionSMSPendingPID,
+	"twofactor_auth_pid", // authboss.Session2FAAuthPID (literal: trees without the D15 fix lack the constant)
 	"app_theme", "app_cart", "app_lang", "visitor_uuid", "twofactor_hint",
 }
 
